@@ -248,7 +248,7 @@ func (p *Program) harnessFuncNames() map[string][]string {
 		}
 		rel := strings.TrimPrefix(strings.TrimPrefix(sp.Pkg.Path(), modPath), "/")
 		for name, m := range sp.Members {
-			if f, ok := m.(*ssa.Function); ok && strings.HasPrefix(name, "Verif") && f.Signature.Params().Len() == 0 {
+			if f, ok := m.(*ssa.Function); ok && strings.HasPrefix(name, "Verif") && f.Signature.Params().Len() == 0 && f.Signature.Results().Len() == 0 {
 				out[rel] = append(out[rel], name)
 			}
 		}
